@@ -174,6 +174,14 @@ var cgPrimitives = map[string]string{
 	"registry.get":       `func (r *registry) get(_ tag, t msgType) (message, error) { entry := &r.factories[t]; if entry.create == nil { return nil, &ErrInvalidMsgType{t} }; select { case msg := <-entry.cache: return msg, nil; default: return entry.create(), nil } }`,
 }
 
+// reviewed equivalent spellings of a primitive (same bytes consumed / appended, same overrun flag, same result):
+// ReadString through one consume(l) -- consume itself marks the overrun and takes nothing when fewer than l bytes are
+// left; WriteString through one append(len(s)) + copy.
+var cgPrimitiveAlternatives = map[string][]string{
+	"buffer.ReadString":  {`func (b *buffer) ReadString() string { l := int(b.Read16()); bs, ok := b.consume(l); if !ok { return "" }; return string(bs) }`},
+	"buffer.WriteString": {`func (b *buffer) WriteString(s string) { b.Write16(uint16(len(s))); copy(b.append(len(s)), s) }`},
+}
+
 const cgRreaddirEncode = `func (r *rreaddir) encode(b *buffer) { entriesBuf := buffer{}; payloadSize := 0; for _, d := range r.Entries { d.encode(&entriesBuf); if len(entriesBuf.data) > int(r.Count) { break }; payloadSize = len(entriesBuf.data) }; r.Count = uint32(payloadSize); r.payload = entriesBuf.data[:payloadSize]; b.Write32(r.Count) }`
 const cgRreaddirDecode = `func (r *rreaddir) decode(b *buffer) { r.Count = b.Read32(); entriesBuf := buffer{data: r.payload}; r.Entries = r.Entries[:0]; for { var d Dirent; d.decode(&entriesBuf); if entriesBuf.isOverrun() { break }; r.Entries = append(r.Entries, d) } }`
 const cgRreaddirDecodeNoReset = `func (r *rreaddir) decode(b *buffer) { r.Count = b.Read32(); entriesBuf := buffer{data: r.payload}; for { var d Dirent; d.decode(&entriesBuf); if entriesBuf.isOverrun() { break }; r.Entries = append(r.Entries, d) } }`
@@ -276,7 +284,13 @@ func (g *cg) load() error {
 			return fmt.Errorf("p9: primitive %s not found", name)
 		}
 		if !g.sameAs(fd, want) {
-			return g.r.Refuse(fd.Pos(), "%s is not the expected primitive up to renaming of locals (expected: %s)", name, want)
+			okAlt := false
+			for _, alt := range cgPrimitiveAlternatives[name] {
+				okAlt = okAlt || g.sameAs(fd, alt)
+			}
+			if !okAlt {
+				return g.r.Refuse(fd.Pos(), "%s is not the expected primitive up to renaming of locals (expected: %s)", name, want)
+			}
 		}
 	}
 	g.env, _, err = collectConsts(g.r, "p9")
